@@ -9,6 +9,7 @@ C09.b  [order] the plan step is dominated by a test of planExists; writers of pl
 C09.c  definite initialisation of every scalar member of every record of the instance (shares C17.a) -- in particular
        planExists, which the plan step reads on every cycle.
 C09.d  failure priority (shares C08.d).
+C09.h  [effect] leaving a state clears both of its status bits whether or not a plan exists (shares C08.e)
 C09.e  [must-write] the per-cycle status accumulators are reset on every path through update()/react() after the plan step.
 """
 from lint import inline, facts, ir, effects, anchors, loops, records, cfg as cfgmod
